@@ -651,7 +651,9 @@ def run_rw(ck, cases, rwcases, rwres):
                   not viol and judged > 0, "case ids %s" % [(i, vv[i]) for i in viol[:10]])
     if viol:
         worst = min((byid[i] for i in viol), key=lambda c: sum(len(x) for x in c["rwin"]))
-        ck.violation({"property": "C16", "kind": "the merged profile answered by MergeProfiles does not carry the weights of the payloads",
+        ck.violation({"property": "C16", "kind": ("the merged profile answered by MergeProfiles is not closed (a dangling function / location reference, ids not 1..n "
+                                                  "or a sample without one value per sample type)" if vv[worst["id"]] == 5 else
+                                                  "the merged profile answered by MergeProfiles does not carry the weights of the payloads"),
                       "case": rw_slim(worst), "code": vv[worst["id"]], "error": (worst.get("mp") or {}).get("err"), "panic": (worst.get("mp") or {}).get("panic"),
                       "explanation": "rw_spec (coq/model/ProfRewriteCase.v): 2 = panic / unknown error, 3 = per-type totals differ, 4 = a resolved stack carries "
                       "another weight than in the payloads together, 5 = the merged message is not closed (a dangling function / location reference, "
